@@ -14,10 +14,10 @@ static std::string unhex(const std::string& h) { std::string s; if (h == "-") re
 // the string in its own heap block followed by a terminator and bytes that must never influence the result
 static std::vector<char> region(const std::string& s, const char* tail) { std::vector<char> v(s.begin(), s.end()); v.push_back(0); for (const char* p = tail; *p; ++p) v.push_back(*p); v.push_back(0); return v; }
 
-template<size_t N> static long find_in(const std::vector<std::vector<char>>& names, const char* s)
+template<size_t N> static std::string find_in(const std::vector<std::vector<char>>& names, const char* s)
 {
     ctpg::str_table<N> t; for (size_t i = 0; i < N; ++i) t[i] = names[i].data();
-    try { return long(ctpg::utils::find_str<N>(t, s)); } catch (const std::exception&) { return -1; }
+    try { return std::to_string(ctpg::utils::find_str<N>(t, s)); } catch (const std::exception&) { return "T"; }     // T = threw ("string not found")
 }
 
 int main(int argc, char** argv)
@@ -44,7 +44,7 @@ int main(int argc, char** argv)
         else if (t[0] == "F")
         {
             auto s = region(unhex(t[1]), "zz"); std::vector<std::vector<char>> names; for (size_t i = 2; i < t.size(); ++i) names.push_back(region(unhex(t[i]), "w"));
-            long r = -2;
+            std::string r = "?";
             switch (names.size()) { case 1: r = find_in<1>(names, s.data()); break; case 2: r = find_in<2>(names, s.data()); break; case 3: r = find_in<3>(names, s.data()); break;
                                     case 4: r = find_in<4>(names, s.data()); break; case 5: r = find_in<5>(names, s.data()); break; case 6: r = find_in<6>(names, s.data()); break; }
             std::cout << r;
